@@ -19,7 +19,7 @@ for p in props:
     else:
         na.append({"property_id":pid,"reason":"check not built yet in this revision of /verif (work in progress, see DESIGN.md section 9 for the build order); no claim is made"})
 m={"version":1,
- "setup_cmd":"cd lean && lake build driver OlVerif",
+ "setup_cmd":"cd lean && lake build driver OlVerif OlVerif.All",
  "hooks":{"guard":"ONELINER_PY_VERIF","enable":"no hooks: every observation point is reachable by importing the package; checks import /repo's working tree directly","baseline_off_cmd":"cd /repo && /venv/bin/python -m pytest -ra -q -p no:cacheprovider --timeout=900 --continue-on-collection-errors","source_commits":[],"add_only":True},
  "engines":[{"name":"olverif-lean","path":"/verif/lean","serves_properties":sorted(claimed),"kind_free_text":"Lean 4 models + theorems (lake project OlVerif), translator tools/extract.py regenerating Gen/*.lean from /repo on every run, correspondence harness in harness/*.py driving the native Lean driver through a JSON line protocol"}],
  "checks":checks,
